@@ -167,6 +167,7 @@ Emit == PrintT(<<"G", Len(ops), ToJson([ops |-> ops, nodes |-> g.nodes, edges |-
 Tpl(els, ez, edges) == [els |-> els, ez |-> ez, edges |-> edges]
 TplQ == << Tpl(<<"C">>, <<<<>>>>, {}),
            Tpl(<<"C", "O">>, <<<<>>, <<>>>>, {<<0, 1, 1>>}),
-           Tpl(<<"F", "C", "C">>, <<<<0, 1>>, <<>>, <<2, 1>>>>, {<<0, 1, 1>>, <<1, 2, 2>>}) >>
+           Tpl(<<"F", "C", "C">>, <<<<0, 1>>, <<>>, <<2, 1>>>>, {<<0, 1, 1>>, <<1, 2, 2>>}),
+           Tpl(<<"O", "H", "C">>, <<<<>>, <<>>, <<>>>>, {<<0, 1, 1>>, <<0, 2, 1>>}) >>      \* an explicit hydrogen inside the block
 TplT == TplQ \o << Tpl(<<"C", "C", "N">>, <<<<>>, <<>>, <<>>>>, {<<0, 1, 1>>, <<1, 2, 1>>, <<0, 2, 1>>}) >>
 =============================================================================
